@@ -1,4 +1,5 @@
 """C32 — DNS messages round-trip through the wire format: real twisted.names.dns vs the Lean model + oracle."""
+import json
 import struct
 
 from twisted.names import dns
@@ -20,7 +21,21 @@ RULE = ("messages over every Record_* class (+UnknownRecord, payload-less header
         "them are then used again as owner names and inside RDATA, in the same and later sections, with no limit / a limit that "
         "fits / a cut near the name; _EDNSMessage (version None/0/1, 12-bit rCode, sizes around 512) and _OPTHeader "
         "with options; mutated/truncated encodings through Message.fromStr; "
-        "distinct = (op, record types present, compression used?, truncated?, outcome class)")
+        "OBJECTS WITH A HISTORY (about 260 quick cases + 10 corpus cases; c['h']): records DECODED from one message (well-formed, "
+        "RDATA with names mostly) put into a new message with other questions / another order / twice / next to fresh records "
+        "(k=xfer: the forwarder's and the cache's path - a decoded RRHeader carries rdlength, a decoded payload its own state), a "
+        "message encoded, decoded, given its maxSize back and encoded again (k=reenc, driver `rt2`), a Message / _EDNSMessage object "
+        "that was ENCODED BEFORE - unchanged (k=twice) or without its last 1-3 records, with another id / other flags, with one "
+        "record being another record (k=edit: records appended in place, record replaced, attributes set, then encoded again), "
+        "equal names / payloads / records being ONE Name / Record_* / RRHeader / Query object throughout the message (share), with "
+        "repeated items; for the model a message is a value, so the model line is that of the final message; "
+        "EVERY CUT POINT INSIDE A RECORD OF EVERY TYPE (about 1400 quick cases): for each Record_* class and UnknownRecord a small "
+        "message with such a record (the richest RDATA of a few tries) between two A records, under every maxSize from the record's "
+        "first byte to one past its last (owner name, fixed part, inside and between all RDATA fields); LONG POINTER CHAINS AND LONG "
+        "NAMES (40 quick cases + 3 corpus): 3..130 names each one label longer than the one before (decoding the k-th follows k-1 "
+        "pointers), as questions / owners / RDATA names, in growing, shrinking and random order, labels of 1..63 bytes, names far "
+        "beyond 255 bytes; "
+        "distinct = (op, record types present, compression used?, truncated?, outcome class, history kind, cut type, chain depth class)")
 ASSUMES = [
     "Message.maxSize is not a wire field: a decoded Message has maxSize 0 and equality is judged with maxSize set aside "
     "(for _EDNSMessage it travels in the OPT record and is compared)",
@@ -37,6 +52,10 @@ ASSUMES = [
     "and a flat proper prefix of questions ++ answers ++ authority ++ additional (a section is cut only if the later ones are empty)",
     "message-level refusal (unrepresentable_name_refused_message) is stated for messages that are otherwise in range and whose "
     "labels are non-empty; ValueError is what is raised unless an earlier record with >= 64 KiB of RDATA raises struct.error first",
+    "histories (c['h']) use well-formed source messages and well-formed earlier states; the property is judged on the FINAL message's "
+    "value against the bytes the object with that history produced - the statement speaks of messages, not of freshly built objects; "
+    "decoding is always done by a fresh Message / _EDNSMessage (Message.decode appends to the answers / authority / additional lists "
+    "an object already holds - only queries is reset - so a decoder object with a past is outside what is judged here)",
     "dnspython is not installed: the independent decoder is lean/TwistedModel/Dns/Rfc1035.lean (written from the RFCs, shares only "
     "data types and the printer with the model of Twisted's codec), run through the driver on the bytes the real encoder produced "
     "- weaker independence than a third-party library (partial)",
@@ -55,7 +74,12 @@ MANIFEST = {
             "that decode, without an exception, to the same header and a flat proper prefix of its questions and records (a "
             "name/field/record cut anywhere raises EOFError and nothing else, which parseRecords/Message.decode catch). "
             "unrepresentable_name_refused_message: a label over 63 bytes anywhere in a message makes toStr raise ValueError. "
-            "Model tied to dns.py by differential runs over all record classes, every cut point and names placed at chosen offsets "
+            "reencode_decoded_message / reencode_any_number_of_times: the message fromStr returns, given its maxSize back, is "
+            "encoded to the same bytes, for any number of decode/encode rounds (the model's encoder is a function of the message's "
+            "value; the tie checks that the real encoder is too: decoded records in new messages, objects encoded before and "
+            "changed since, shared objects, driver op rt2). "
+            "Model tied to dns.py by differential runs over all record classes, every cut point (also inside every field of every record type), "
+            "pointer chains up to 130 hops, names over 255 bytes, and names placed at chosen offsets "
             "(straddling 2^14, 2^15, 3*2^14, 2^16; pointer targets in every band below 2^14); round trip, refusal, "
             "truncation-prefix and an independent RFC 1035 reader checked on the real code by the oracle.",
     "note": "trusts Lean kernel, the hand model of dns.py (differentially tied), the Lean RFC 1035 reader standing in for dnspython",
@@ -502,6 +526,189 @@ def _offset_case_try(rng, tier):
     return {"op": "rt", "m": m, "at": f"{'%#x' % B}:{where}:{j}/{len(labels)}{'+ptr' if tail else ''}"}
 
 
+# ------------------------------------------------------------------------------------------------
+# generators for the histories (see "objects with a history" below), for every cut point inside a record of every
+# type, and for long pointer chains / long names
+
+def _wf_case(c):
+    m = _x(c["m"])
+    ok, names = D.msg_ok(m, edns=c["op"] == "edns")
+    return ok and all(D.labels_ok(n) for n in names)
+
+
+def _dup_items(rng, m):
+    """repeat some questions / records of the message (so that `share` has equal items to make one object of)"""
+    for sec in ("q", "an", "ns", "ad"):
+        for _ in range(rng.choice([0, 0, 1, 2])):
+            if m[sec] and len(m[sec]) < 8:
+                x = rng.choice(m[sec])
+                tgt = m[sec] if sec == "q" else m[rng.choice(["an", "ns", "ad"])]
+                tgt.insert(rng.randint(0, len(tgt)), x)
+
+
+def _xfer_case(rng):
+    pool = []
+    q = [[hx(_name(rng, pool, 0)), rng.choice(TYPES), 1] for _ in range(rng.choice([0, 1, 1, 2]))]
+    q = [x for x in q if D.labels_ok(unhx(x[0]))]
+    pool[:] = [n for n in pool if D.labels_ok(n)]
+    recs = [_clean_rr(rng, pool, _NAME_TYPES if rng.random() < 0.6 else None) for _ in range(rng.randint(1, 6))]
+    an, ns, ad = _split3(rng, recs)
+    src = {"hdr": [rng.randrange(65536), 1, 0, 0, 0, rng.choice([0, 1]), 0, 0, 0, 0, 0], "q": q, "an": an, "ns": ns, "ad": ad}
+    flat = [("q", x) for x in q] + [("r", x) for x in an + ns + ad]
+    # the new message: other questions in front (names from the source's pool: the compression context changes), the
+    # source's records in another order / a subset / twice, a few fresh records in between
+    known = [n for n in pool if n] or [b"example.org"]
+    nq, nmap = [], []
+    for _ in range(rng.choice([0, 1, 1, 2])):
+        if q and rng.random() < 0.4:
+            i = rng.randrange(len(q))
+            nq.append(q[i])
+            nmap.append(i)
+        else:
+            n = rng.choice(known)
+            if rng.random() < 0.5:
+                n = b".".join(n.split(b".")[rng.randrange(len(n.split(b"."))):])
+            if rng.random() < 0.3:
+                n = rng.choice(_LABELS[:9]) + b"." + n
+            if rng.random() < 0.2:
+                n = _flip(rng, n)
+            nq.append([hx(n), rng.choice(TYPES), 1])
+            nmap.append(-1)
+    items = []
+    idx = list(range(len(q), len(flat)))
+    rng.shuffle(idx)
+    for i in idx[:rng.randint(1, len(idx))]:
+        items.append((flat[i][1], i))
+        if rng.random() < 0.15:
+            items.append((flat[i][1], i))
+    for _ in range(rng.choice([0, 0, 1, 2])):
+        items.insert(rng.randint(0, len(items)), (_clean_rr(rng, pool), -1))
+    a, b, cc = _split3(rng, items)
+    m = {"hdr": _hdr(rng, 0), "q": nq, "an": [x for x, _ in a], "ns": [x for x, _ in b], "ad": [x for x, _ in cc]}
+    m["hdr"][8] = 0
+    if rng.random() < 0.2:
+        full = _full_size(m) or 100
+        m["hdr"][8] = max(12, rng.choice([full, full - 1, rng.randint(12, full), 512]))
+    h = {"k": "xfer", "src": src, "map": nmap + [i for _, i in a + b + cc]}
+    if rng.random() < 0.25:
+        h["share"] = True
+    return {"op": "rt", "m": m, "h": h}
+
+
+def _hist_case(rng):
+    r = rng.random()
+    if r < 0.3:
+        return _xfer_case(rng)
+    c = _edns_case(rng) if rng.random() < 0.25 else _rt_case(rng) if rng.random() < 0.9 else (_offset_case_try(rng, "quick") or _rt_case(rng))
+    m = c["m"]
+    if rng.random() < 0.5:
+        _dup_items(rng, m)
+    nrec = len(m["an"]) + len(m["ns"]) + len(m["ad"])
+    r = rng.random()
+    if r < 0.25:
+        h = {"k": "twice"}
+    elif r < 0.65:
+        h = {"k": "edit", "drop": rng.choice([0, 1, 1, 2, 3]), "hdr": None, "was": None}
+        if rng.random() < 0.4:                                   # another id / other flags the first time (the same maxSize)
+            hd = _hdr(rng, m["hdr"][8])
+            if rng.random() < 0.5:
+                hd = m["hdr"][:1] + hd[1:]
+            h["hdr"] = hd[:11]
+        if nrec and m["hdr"][8] == 0 and rng.random() < 0.5:     # one record was another record the first time
+            i = rng.randrange(nrec)
+            old = (m["an"] + m["ns"] + m["ad"])[i]
+            new = _clean_rr(rng, [unhx(old["n"])] if D.labels_ok(unhx(old["n"])) else [], [old["t"]] if old["t"] in D.KINDS and rng.random() < 0.7 else None)
+            if rng.random() < 0.7:
+                new["n"] = old["n"] if D.labels_ok(unhx(old["n"])) else new["n"]
+            h["was"] = [i, new]
+        if not h["drop"] and not h["hdr"] and not h["was"]:
+            h["drop"] = 1
+    elif r < 0.85 and c["op"] == "rt":
+        h = {"k": "reenc"}
+    else:
+        h = {}
+    if rng.random() < (0.3 if h else 1.0):
+        h["share"] = True
+    c = dict(c, h=h)
+    return c
+
+
+def _rich_rr(rng, t, pool):
+    """a well-formed record of TYPE t (0: an UnknownRecord) with as much RDATA as a few tries give"""
+    best = None
+    for _ in range(6):
+        if t == 0:
+            r = {"n": hx(rng.choice(pool)), "t": rng.choice([41, 65280, 255]), "c": 1, "ttl": 60, "pk": "u", "v": ["b" + hx(_bytes(rng, rng.randint(3, 12)))]}
+        else:
+            r = _clean_rr(rng, list(pool), [t])
+        size = sum(len(v) for v in r["v"])
+        if size < 110 and (best is None or size > sum(len(v) for v in best["v"])):
+            best = r
+    return best or r
+
+
+def _cut_sweep(rng, types=None):
+    """for every record type: a small message with a record of that type in the middle, encoded under every size limit from
+    the first byte of that record to one past its last byte (the cut falls in the owner name, in the fixed part, inside and
+    between all the fields of the RDATA)"""
+    pool = [b"example.com", b"mail.example.com", b"ns.Example.org"]
+    a = lambda n, ip: {"n": hx(n), "t": 1, "c": 1, "ttl": 60, "pk": "k", "v": [ip]}  # noqa: E731
+    for t in ([0] + TYPES if types is None else types):
+        rec = _rich_rr(rng, t, pool)
+        before = [a(b"example.com", "b0a000001")]
+        after = [a(b"www.example.com", "b0a000002")]
+        secs = rng.choice([(before + [rec] + after, [], []), (before, [rec], after), (before, [], [rec] + after), ([rec], after, [])])
+        m = {"hdr": [rng.randrange(65536), 1, 0, 0, 0, rng.choice([0, 1]), 0, 0, 0, 0, 0], "q": [[hx(b"example.com"), t or 255, 1]],
+             "an": secs[0], "ns": secs[1], "ad": secs[2]}
+        flat = secs[0] + secs[1] + secs[2]
+        i = flat.index(rec)
+        try:
+            lo = _full_size(dict(m, an=flat[:i], ns=[], ad=[]))
+            hi = _full_size(dict(m, an=flat[:i + 1], ns=[], ad=[]))
+        except Exception:
+            continue
+        if lo is None or hi is None:
+            continue
+        for size in range(lo, min(hi, lo + 120) + 2):
+            yield {"op": "rt", "m": dict(m, hdr=m["hdr"][:8] + [size] + m["hdr"][9:]), "cut": f"t{t}"}
+
+
+def _chain_case(rng):
+    """names that extend one another label by label: name k is one label + a pointer to name k-1, so decoding it follows
+    k-1 pointers (depths up to 130: more hops than any loop guard should mistake for a loop); names longer than 255
+    bytes made of legal labels; the longest name first (every later one is a bare pointer)"""
+    depth = rng.choice([3, 8, 15, 16, 17, 18, 19, 20, 31, 32, 33, 40, 63, 64, 65, 100, 127, 128, 130])
+    lab = lambda i: rng.choice([b"%d" % i, b"l%d" % i, b"x" * rng.choice([1, 5, 63]), rng.choice(_LABELS[:11])])  # noqa: E731
+    names, n = [], rng.choice([b"z", b"example.com", b"y" * 63])
+    for i in range(depth):
+        names.append(n)
+        n = lab(i) + b"." + n
+    order = rng.random()
+    if order < 0.15:
+        names.reverse()
+    elif order < 0.3:
+        rng.shuffle(names)
+    if rng.random() < 0.5:                                      # keep only some of them: hops between 1 and depth
+        names = [x for x in names if rng.random() < 0.7] or names
+    m = {"hdr": [rng.randrange(65536), 1, 0, 0, 0, rng.choice([0, 1]), 0, 0, 0, 0, 0], "q": [], "an": [], "ns": [], "ad": []}
+    for x in names:
+        w = rng.random()
+        if w < 0.3 and len(m["q"]) < 40 and not (m["an"] or m["ns"] or m["ad"]):
+            m["q"].append([hx(x), 1, 1])
+        elif w < 0.6:
+            m[rng.choice(["an", "ns", "ad"])].append({"n": hx(x), "t": 1, "c": 1, "ttl": 5, "pk": "k", "v": ["b0a000001"]})
+        else:
+            t = rng.choice([2, 5, 12, 15, 33] if len(x) < 300 else [2, 5, 12, 15])
+            m[rng.choice(["an", "ns", "ad"])].append({"n": hx(rng.choice([b"", b"o.example", names[0]])), "t": t, "c": 1, "ttl": 5, "pk": "k",
+                                                      "v": {15: ["n1"], 33: ["n1", "n2", "n3"]}.get(t, []) + ["b" + hx(x)]})
+    # sections in wire order: an, ns, ad were filled at random, so the chain is not monotone across sections - fine
+    r = rng.random()
+    if r > 0.8:
+        full = _full_size(m) or 100
+        m["hdr"][8] = max(12, rng.choice([full, full - 1, rng.randint(12, full)]))
+    return {"op": "rt", "m": m, "chain": depth}
+
+
 def _offset_corpus():
     """fixed messages with a name at a chosen offset: a filler record (owner b"f": 3 + 10 bytes before its RDATA) puts the
     next record at `start`"""
@@ -556,6 +763,55 @@ def _offset_corpus():
     return out
 
 
+def _history_corpus():
+    rr = lambda n, t, *v, ttl=60: {"n": hx(n), "t": t, "c": 1, "ttl": ttl, "pk": "k", "v": list(v)}  # noqa: E731
+    nb = lambda x: "b" + hx(x)  # noqa: E731
+    hdr = lambda i, size=0: [i, 1, 0, 0, 0, 0, 0, 0, size, 0, 0]  # noqa: E731
+    mx = rr(b"example.com", 15, "n10", nb(b"mail.example.com"))
+    soa = rr(b"example.com", 6, nb(b"ns.example.com"), nb(b"admin.example.com"), "n1", "i2", "i3", "i4", "n5")
+    a = rr(b"mail.example.com", 1, "b0a000001")
+    src = {"hdr": hdr(1), "q": [], "an": [mx, soa], "ns": [], "ad": []}
+    out = [
+        # decoded MX / SOA records answer another question: their RDATA names now compress onto the question's name
+        {"op": "rt", "m": {"hdr": hdr(2), "q": [[hx(b"mail.example.com"), 15, 1]], "an": [mx], "ns": [soa], "ad": [a]},
+         "h": {"k": "xfer", "src": src, "map": [-1, 0, 1, -1]}},
+        {"op": "rt", "m": {"hdr": hdr(2), "q": [[hx(b"admin.example.com"), 6, 1]], "an": [soa, mx], "ns": [], "ad": []},
+         "h": {"k": "xfer", "src": src, "map": [-1, 1, 0], "share": True}},
+        # a reply that was encoded, then got more records / another record / another id, and is encoded again
+        {"op": "rt", "m": {"hdr": hdr(3), "q": [[hx(b"example.com"), 15, 1]], "an": [mx], "ns": [soa], "ad": [a, a]},
+         "h": {"k": "edit", "drop": 2, "hdr": None, "was": None}},
+        {"op": "rt", "m": {"hdr": hdr(3), "q": [[hx(b"example.com"), 1, 1]], "an": [rr(b"example.com", 1, "b05060708")], "ns": [], "ad": []},
+         "h": {"k": "edit", "drop": 0, "hdr": None, "was": [0, rr(b"example.com", 1, "b01020304")]}},
+        {"op": "rt", "m": {"hdr": hdr(4), "q": [[hx(b"example.com"), 15, 1]], "an": [mx], "ns": [], "ad": [a]},
+         "h": {"k": "edit", "drop": 0, "hdr": [5, 0, 2, 1, 1, 1, 3, 0, 0, 1, 1], "was": None}},
+        {"op": "rt", "m": {"hdr": hdr(4, 40), "q": [[hx(b"example.com"), 15, 1]], "an": [mx, mx], "ns": [], "ad": [a]}, "h": {"k": "twice", "share": True}},
+        {"op": "rt", "m": {"hdr": hdr(4), "q": [[hx(b"example.com"), 15, 1]], "an": [mx, soa], "ns": [], "ad": [a]}, "h": {"k": "reenc"}},
+        {"op": "rt", "m": {"hdr": hdr(4, 60), "q": [[hx(b"example.com"), 15, 1]], "an": [mx, soa], "ns": [], "ad": [a]}, "h": {"k": "reenc"}},
+        # an _EDNSMessage encoded twice / after another record was added (its OPT record is made anew each time)
+        {"op": "edns", "m": {"hdr": hdr(6, 512) + [0, 0], "q": [[hx(b"example.com"), 1, 1]], "an": [], "ns": [], "ad": []}, "h": {"k": "twice"}},
+        {"op": "edns", "m": {"hdr": hdr(6, 1232) + [0, 1], "q": [[hx(b"example.com"), 1, 1]], "an": [mx], "ns": [], "ad": [a]},
+         "h": {"k": "edit", "drop": 1, "hdr": None, "was": None}},
+    ]
+    # a chain of 130 names, each one label longer than the one before (decoding the last follows 129 pointers), as
+    # questions and as NS targets; a name of 6 x 63 bytes
+    chain = [b"z"]
+    for i in range(129):
+        chain.append(b"%d." % i + chain[-1])
+    out.append({"op": "rt", "chain": 130, "m": {"hdr": hdr(7), "q": [[hx(n), 1, 1] for n in chain], "an": [], "ns": [], "ad": []}})
+    out.append({"op": "rt", "chain": 130, "m": {"hdr": hdr(7), "q": [], "an": [rr(b"", 2, nb(n)) for n in chain[:40]], "ns": [], "ad": []}})
+    long = b".".join(bytes([97 + i]) * 63 for i in range(6))
+    out.append({"op": "rt", "chain": 1, "m": {"hdr": hdr(8), "q": [[hx(long), 1, 1]], "an": [rr(long, 5, nb(b"w." + long))], "ns": [], "ad": []}})
+    # a cut inside the RDATA of record types whose decoder is given the RDATA length
+    sshfp = rr(b"host.example.com", 44, "n1", "n2", nb(bytes(range(20))))
+    tsig = rr(b"key.example.com", 250, nb(b"hmac-md5.sig-alg.reg.int"), "n1", "n300", nb(b"M" * 16), "n7", "n0", nb(b"other!"))
+    hinfo = rr(b"host.example.com", 13, nb(b"cpu-type"), nb(b"operating-system"))
+    for r in (sshfp, tsig, hinfo):
+        full = _full_size({"hdr": hdr(9), "q": [], "an": [r], "ns": [], "ad": []})
+        for cut in (1, 3, 7):
+            out.append({"op": "rt", "cut": f"t{r['t']}", "m": {"hdr": hdr(9, full - cut), "q": [], "an": [r], "ns": [], "ad": []}})
+    return out
+
+
 def corpus():
     q = lambda n: {"op": "rt", "m": {"hdr": [1, 0, 0, 1, 0, 0, 0, 0, 0, 0, 0], "q": [[hx(n), 1, 1]], "an": [], "ns": [], "ad": []}}  # noqa: E731
     big = {"op": "rt", "m": {"hdr": [7, 1, 0, 0, 0, 0, 0, 0, 0, 0, 0], "q": [], "an": [
@@ -592,7 +848,7 @@ def corpus():
         {"op": "opt", "hdr": [4096, 0, 0, 1], "opts": [[3, hx(b"nsid")], [10, hx(b"\x01" * 8)]]},
         {"op": "dec", "data": (b"\x00" * 5 + b"\x01" + b"\x00" * 6 + b"\xc0\x0c\x00\x01\x00\x01").hex()},
         {"op": "dec", "data": ""},
-    ] + _offset_corpus()
+    ] + _offset_corpus() + _history_corpus()
 
 
 def generate(rng, tier):
@@ -610,6 +866,15 @@ def generate(rng, tier):
             yield _dec_case(rng)
     for i in range(nbig):
         yield _rt_case(rng, big=True)
+    # objects with a history: decoded records in a new message, an object encoded before and changed since, shared objects
+    for i in range(260 if tier == "quick" else 6000):
+        yield _hist_case(rng)
+    # every cut point inside a record of every type
+    for i in range(1 if tier == "quick" else 8):
+        yield from _cut_sweep(rng)
+    # long pointer chains, names over 255 bytes
+    for i in range(40 if tier == "quick" else 600):
+        yield _chain_case(rng)
     # names placed at chosen offsets: straddling 2^14 (and 2^15, 3*2^14, 2^16), pointer targets up to 2^14 - 1
     for i in range(90 if tier == "quick" else 700):
         yield _offset_case(rng, tier)
@@ -641,6 +906,137 @@ def generate(rng, tier):
 
 
 # ------------------------------------------------------------------------------------------------
+# objects with a history.  The statement quantifies over messages, not over freshly built objects: a message whose
+# records were DECODED from another message (a forwarder / the cache), a message object that was ENCODED BEFORE and
+# changed since (a retry, a reply filled in step by step), records / names that are ONE object used in several places,
+# a decoder object that was used before.  A case carries its history in c["h"]; `_encode` replays it on the real code
+# and returns the bytes whose round trip is observed (run_impl) and judged (oracle).  For the model a message is a
+# value, so the model line is the plain `rt` / `edns` line of the final message (`rt2` for k=reenc): the tie then says
+# that the real encoder is a function of the message's value alone.
+#   {"k":"twice"}                     toStr() twice on the same object, the second result is observed
+#   {"k":"edit","drop":n,"hdr":h|None,"was":[i, rr]|None}
+#                                     the object is first encoded WITHOUT its last n records (of its last non-empty section),
+#                                     with header h (same maxSize) and with record i (flat index) being rr; then the records are
+#                                     appended in place, record i is replaced, the header attributes are set, and it is encoded again
+#   {"k":"xfer","src":A,"map":[..]}   A (well-formed, no limit) is encoded and decoded; item j of the message (flat: questions,
+#                                     answers, authority, additional) IS the decoded object number map[j] of A when map[j] >= 0
+#   {"k":"reenc"}                     the message is encoded, decoded, the decoded object gets the maxSize back and is encoded again
+#   "share": true (any k, or alone)   equal names are ONE Name object, equal payloads ONE record object, equal items ONE
+#                                     Query / RRHeader object throughout the message
+#   {"k":"redec","first":hex}         (decoding side) the Message that decodes the observed bytes has decoded `first` before
+
+def _secs(msg):
+    return [msg.answers, msg.authority, msg.additional]
+
+
+def _share(msg, m):
+    names = {}
+
+    def nm(o):
+        return names.setdefault(o.name, o)
+    for q in msg.queries:
+        q.name = nm(q.name)
+    pay = {}
+    for lst, sec in zip(_secs(msg), ("an", "ns", "ad")):
+        for r, rd in zip(lst, m[sec]):
+            r.name = nm(r.name)
+            p = r.payload
+            if p is None:
+                continue
+            if type(p) is dns.Record_A6:
+                p.prefix = nm(p.prefix)
+            for attr, kind in D.ATTRS.get(type(p), ()):
+                if kind == "N":
+                    setattr(p, attr, nm(getattr(p, attr)))
+            r.payload = pay.setdefault(json.dumps([rd["t"], rd["ttl"], rd["pk"], rd["v"]]), p)
+    memo = {}
+    for i, (q, qd) in enumerate(zip(msg.queries, m["q"])):
+        msg.queries[i] = memo.setdefault(json.dumps(qd), q)
+    for lst, sec in zip(_secs(msg), ("an", "ns", "ad")):
+        for i, (r, rd) in enumerate(zip(lst, m[sec])):
+            lst[i] = memo.setdefault(json.dumps(rd, sort_keys=True), r)
+
+
+_HDR_ATTRS = ["id", "answer", "opCode", "recDes", "recAv", "auth", "rCode", "trunc", "maxSize", "authenticData", "checkingDisabled"]
+
+
+def _build(c, m=None):
+    m = _x(c["m"]) if m is None else m
+    return D.build_message(m) if c["op"] == "rt" else D.build_edns(m)
+
+
+def _encode(c):
+    """the bytes the real encoder produces for the case's message, after the case's history (exceptions propagate)"""
+    m = _x(c["m"])
+    h = c.get("h") or {}
+    k = h.get("k")
+    msg = _build(c, m)
+    if k == "xfer":
+        src = _x(h["src"])
+        a = dns.Message()
+        a.fromStr(D.build_message(src).toStr())
+        flat = a.queries + a.answers + a.authority + a.additional
+        if len(flat) != len(src["q"]) + len(src["an"]) + len(src["ns"]) + len(src["ad"]):
+            raise AssertionError("xfer: the source message did not decode to all its items")
+        j = 0
+        for lst in [msg.queries] + _secs(msg):
+            for i in range(len(lst)):
+                if j < len(h["map"]) and h["map"][j] >= 0 and type(flat[h["map"][j]]) is type(lst[i]):
+                    lst[i] = flat[h["map"][j]]
+                j += 1
+    if h.get("share"):
+        _share(msg, m)
+    if k == "twice":
+        msg.toStr()
+    elif k == "edit":
+        secs = [s for s in _secs(msg) if s]
+        held = []
+        if secs and h.get("drop"):
+            n = min(h["drop"], len(secs[-1]))
+            held = secs[-1][len(secs[-1]) - n:]
+            del secs[-1][len(secs[-1]) - n:]
+        was = h.get("was")
+        flat = [(lst, i) for lst in _secs(msg) for i in range(len(lst))]
+        final = None
+        if was and was[0] < len(flat):
+            lst, i = flat[was[0]]
+            final = (lst, i, lst[i])
+            lst[i] = D.build_rr(_x({"q": [], "an": [was[1]], "ns": [], "ad": []})["an"][0], m["hdr"][5])
+        if h.get("hdr"):
+            for a, v in zip(_HDR_ATTRS, h["hdr"]):
+                if a != "maxSize":
+                    setattr(msg, a, v)
+        try:
+            msg.toStr()
+        except Exception:
+            pass
+        if secs and held:
+            secs[-1].extend(held)
+        if final:
+            final[0][final[1]] = final[2]
+        for a, v in zip(_HDR_ATTRS, m["hdr"]):
+            setattr(msg, a, v)
+    elif k == "reenc":
+        d = dns.Message()
+        d.fromStr(msg.toStr())
+        d.maxSize = m["hdr"][8]
+        msg = d
+    return msg.toStr()
+
+
+def _decoder(c):
+    """the object that decodes the observed bytes: fresh, or (k=redec) one that has decoded another message before"""
+    back = dns.Message() if c["op"] == "rt" else dns._EDNSMessage()
+    h = c.get("h") or {}
+    if h.get("k") == "redec":
+        try:
+            back.fromStr(bytes.fromhex(h["first"]))
+        except Exception:
+            pass
+    return back
+
+
+# ------------------------------------------------------------------------------------------------
 # both sides
 
 def _msg_text(m):
@@ -652,13 +1048,13 @@ def model_line(c):
     if op in ("rt", "edns"):
         m = _x(c["m"])
         try:                                   # queue the real encoder's bytes for the batched RFC reader (oracle)
-            if op == "rt":
-                D.rfc_want(D.build_message(m).toStr())
-            else:
-                D.rfc_want(D.build_edns(m).toStr())
+            D.rfc_want(_encode(c))
         except Exception:
             pass
-        return f"{op} " + _msg_text(m)
+        k = (c.get("h") or {}).get("k")
+        if k == "redec":
+            return None                        # a decoder with a past: judged by the oracle only
+        return ("rt2 " if k == "reenc" else f"{op} ") + _msg_text(m)
     if op == "opt":
         return "opt " + " ".join([",".join(str(x) for x in c["hdr"])] + [f"{code}:{d}" for code, d in c["opts"]])
     if op == "dec":
@@ -686,16 +1082,16 @@ def run_impl(c):
     op = c["op"]
     try:
         if op == "rt":
-            enc = D.build_message(_x(c["m"])).toStr()
-            back = dns.Message()
+            enc = _encode(c)
+            back = _decoder(c)
             try:
                 back.fromStr(enc)
             except (EOFError, ValueError, struct.error, TypeError) as e:
                 return f"enc={hx(enc)} dec={_exc(e)}"
             return f"enc={hx(enc)} dec={D.show_message(back)}"
         if op == "edns":
-            enc = D.build_edns(_x(c["m"])).toStr()
-            back = dns._EDNSMessage()
+            enc = _encode(c)
+            back = _decoder(c)
             try:
                 back.fromStr(enc)
             except (EOFError, ValueError, struct.error, TypeError) as e:
@@ -759,7 +1155,7 @@ def _oracle_rt(c):
         return None                                    # empty labels etc.: outside both clauses
     orig = D.build_message(m)
     try:
-        enc = D.build_message(m).toStr()
+        enc = _encode(c)
     except Exception as e:
         if long_:
             return None if isinstance(e, ValueError) else _fail("refusal-class", f"unrepresentable name refused with {type(e).__name__}")
@@ -770,7 +1166,7 @@ def _oracle_rt(c):
         return _fail("label-over-63-not-refused", f"name with a {mx}-byte label was encoded ({len(enc)} bytes) instead of refused")
     maxSize = m["hdr"][8]
     full = _full_size(m)
-    back = dns.Message()
+    back = _decoder(c)
     try:
         back.fromStr(enc)
     except Exception as e:
@@ -814,14 +1210,14 @@ def _oracle_edns(c):
         return None
     orig = D.build_edns(m)
     try:
-        enc = orig.toStr()
+        enc = _encode(c)
         inner = orig._toMessage()
         inner.maxSize = 0
         full = len(inner.toStr())
     except Exception as e:
         return _fail("encode-raises", f"well-formed EDNS message: toStr raised {type(e).__name__}: {e}")
     limit = m["hdr"][8]
-    back = dns._EDNSMessage()
+    back = _decoder(c)
     try:
         back.fromStr(enc)
     except Exception as e:
@@ -861,9 +1257,19 @@ def shrink(c):
     if c["op"] not in ("rt", "edns"):
         return
     m = c["m"]
+    h = c.get("h") or {}
+    start = {"q": 0, "an": len(m["q"]), "ns": len(m["q"]) + len(m["an"]), "ad": len(m["q"]) + len(m["an"]) + len(m["ns"])}
     for sec in ("ad", "ns", "an", "q"):
         for i in range(len(m[sec])):
-            yield dict(c, m=dict(m, **{sec: m[sec][:i] + m[sec][i + 1:]}))
+            c2 = dict(c, m=dict(m, **{sec: m[sec][:i] + m[sec][i + 1:]}))
+            if h.get("k") == "xfer":
+                j = start[sec] + i
+                c2["h"] = dict(h, map=h["map"][:j] + h["map"][j + 1:])
+            elif h.get("was"):
+                c2["h"] = dict(h, was=None)
+            yield c2
+    if h.get("share"):
+        yield dict(c, h={k: v for k, v in h.items() if k != "share"})
 
 
 def search(rng, tier, disagreeing):
@@ -889,5 +1295,14 @@ def tag(c, out):
         if c.get("at"):                          # a name placed at a chosen offset: boundary, where it is, which part is there
             a = c["at"].split(":")
             at = ":@corpus" if a[0] == "corpus" else f":@{a[0] if int(a[0], 16) in _BOUNDS + [0x4000, 0x8000, 0xC000, 0x10000] else 'rnd'}:{a[1][:5]}:{a[2].split('/')[0]}"
+        h = c.get("h") or {}
+        if h:
+            at += ":h=" + (h.get("k") or "") + ("+share" if h.get("share") else "")
+            if h.get("k") == "edit":
+                at += f":{min(h.get('drop') or 0, 2)}{'h' if h.get('hdr') else ''}{'w' if h.get('was') else ''}"
+        if c.get("cut"):
+            at += ":cut=" + c["cut"]
+        if c.get("chain"):
+            at += ":chain" + str(min(c["chain"], 17) if c["chain"] < 18 else 18 if c["chain"] < 64 else 64)
         return f"{op}:{'-'.join(str(t) for t in types[:4])}:{'ptr' if comp else 'noptr'}:{'tc' if tr else 'full'}:{cls}{at}"
     return f"{op}:{cls}"
